@@ -6,8 +6,10 @@ DRIVER = "drv_layers"
 LEAN_MODULES = ["MesaModel.Props.C11", "MesaModel.Props.C18Layers"]
 _T = [
     "C11_reach_iff_history", "C11_two_views_one_value", "C11_cell_write_read_through_layer",
-    "C11_layer_write_read_through_cell", "C11_set_cells_pointwise", "C11_modify_cells_pointwise",
-    "C11_set_in_place_modify_repoints", "C11_create_default", "C11_detach_keeps_values",
+    "C11_layer_write_read_through_cell", "C11_value_changes_only_by_writes", "C11_read_after_write_persists",
+    "C11_set_cells_pointwise", "C11_modify_cells_pointwise",
+    "C11_set_in_place_modify_repoints", "C11_modify_cell_pointwise", "C11_write_through_live_reference",
+    "C11_create_default", "C11_detach_keeps_values",
     "C11_attach_exposes_layer", "C11_empty_view_is_emptiness", "C11_empties_readout_agrees",
     "C11_cells_exact", "C11_select_exact", "C11_select_filters_only", "C11_select_one_extreme",
     "C11_select_list_is_mask", "C11_only_empty_is_actual_emptiness",
@@ -15,7 +17,7 @@ _T = [
     "C18_layers_step_reject_unchanged", "C18_layers_rejected_calls_invisible",
 ]
 THEOREMS = ["Mesa.Layers." + t for t in _T]
-COUNTS = {"quick": 6000, "thorough": 120000}
+COUNTS = {"quick": 6000, "thorough": 60000}
 TRUSTED = [
     "numpy: np.copyto / np.where / np.vectorize / ufuncs / np.logical_and / masked max,min / np.where->zip apply the "
     "element-wise function point-wise, in row-major order, without changing dtype on the values used (bool 0/1, small ints, "
@@ -36,7 +38,8 @@ ASSUMPTIONS = [
     "the emptiness theorems and the oracle's emptiness clause assume the *user* does not overwrite, re-point, alias or "
     "remove the built-in `empty` layer (Op.safe); such histories are still generated and compared with the model",
     "dtype-respecting values: bools into bool layers, ints into int layers, multiples of 1/4 into float layers; "
-    "logical ops on bool layers, arithmetic on numeric layers; magnitudes stay far below 2^53",
+    "logical ops on bool layers, arithmetic on numeric layers; magnitudes stay far below 2^53; a user-made layer "
+    "called `empty` (after removing the built-in one) is bool or int, because the grid writes raw True/False into it",
 ]
 RULE = ("random scenarios over the three grid families (new cell spaces: Moore/VonNeumann/Hex, 1-3 dimensions, sizes 1-4, "
         "capacity None/1/2, torus or not; legacy SingleGrid/MultiGrid up to 4x4): 1-3 initial layers of dtype bool/int/float, "
